@@ -256,6 +256,15 @@ def permutations(camp, seed, nperm, ncorpus):
         p = family.member_of(d, violating=0.6, opts={"small": True})
         corpus.append([p.name, p.text])
     corpus.append(["cmt.c", "int\tft_c(int a)\n{\n\twhile (a) /* c */\n\t\ta--;\n\treturn (0);\n}\n"])
+    # the repository's own samples: exotic constructs (attributes, K&R leftovers, macros) that two primaries may both accept
+    import glob
+    samples = sorted(glob.glob(os.path.join(core.REPO, "tests", "rules", "samples", "*.[ch]")))
+    for path in samples:
+        try:
+            with open(path, errors="replace") as f:
+                corpus.append([os.path.basename(path), f.read()])
+        except OSError:
+            pass
     with adapters.scratch() as dname:
         cpath = os.path.join(dname, "corpus.json")
         spath = os.path.join(dname, "perm.py")
@@ -272,8 +281,10 @@ def permutations(camp, seed, nperm, ncorpus):
         if ref is None:
             raise core.HarnessError("reference listing run failed: " + err)
         jobs = [("reversed", 0)] + [("perm", seed * 100 + k) for k in range(nperm)]
-        for mode, s in jobs:
-            got, err = run(mode, s)
+        from concurrent.futures import ThreadPoolExecutor
+        with ThreadPoolExecutor(max_workers=8) as ex:
+            outs = list(ex.map(lambda j: run(*j), jobs))
+        for (mode, s), (got, err) in zip(jobs, outs):
             camp.case("perm|%s|%d" % (mode, s), True)
             camp.count("listing-permutations")
             if got is None:
